@@ -456,9 +456,141 @@ pub fn first_diff(a: &str, b: &str) -> Option<Diff> {
     })
 }
 
+/// First structural difference between two *compact* canonical texts (`canon_compact`), in linear time: walks the
+/// common prefix once, tracking the enclosing `Name {` / `Name(` / `[` frames and the current field of each.
+pub fn first_diff_compact(a: &str, b: &str) -> Option<Diff> {
+    if a == b {
+        return None;
+    }
+    let (ab, bb) = (a.as_bytes(), b.as_bytes());
+    let mut n = 0;
+    while n < ab.len() && n < bb.len() && ab[n] == bb[n] {
+        n += 1;
+    }
+    while !a.is_char_boundary(n) || !b.is_char_boundary(n) {
+        n -= 1;
+    }
+    // frames: (name, current field)
+    let mut stack: Vec<(String, String)> = Vec::new();
+    let mut last_ident = String::new();
+    let mut tok_start = 0usize;
+    let mut i = 0usize;
+    let mut in_str = false;
+    while i < n {
+        let c = ab[i];
+        if in_str {
+            if c == b'\\' {
+                i += 2;
+                continue;
+            }
+            if c == b'"' {
+                in_str = false;
+            }
+            i += 1;
+            continue;
+        }
+        match c {
+            b'"' => {
+                in_str = true;
+                tok_start = i;
+                last_ident.clear();
+            }
+            b'{' | b'(' => {
+                stack.push((std::mem::take(&mut last_ident), String::new()));
+                tok_start = i + 1;
+            }
+            b'[' => {
+                stack.push(("[".to_string(), String::new()));
+                last_ident.clear();
+                tok_start = i + 1;
+            }
+            b'}' | b')' | b']' => {
+                stack.pop();
+                last_ident.clear();
+                tok_start = i + 1;
+            }
+            b':' => {
+                if let Some(top) = stack.last_mut() {
+                    if !last_ident.is_empty() {
+                        top.1 = std::mem::take(&mut last_ident);
+                    }
+                }
+                tok_start = i + 1;
+            }
+            b',' | b' ' => {
+                if c == b',' {
+                    last_ident.clear();
+                }
+                tok_start = i + 1;
+            }
+            _ => {
+                if last_ident.is_empty() || tok_start == i {
+                    last_ident.clear();
+                    tok_start = i;
+                }
+                last_ident.push(c as char);
+            }
+        }
+        i += 1;
+    }
+    let snippet = |s: &str| -> String {
+        let start = tok_start.min(s.len());
+        let mut start = start;
+        while !s.is_char_boundary(start) {
+            start -= 1;
+        }
+        let rest = &s[start..];
+        let mut out = String::new();
+        let mut instr = false;
+        let mut prev = ' ';
+        for (k, ch) in rest.char_indices() {
+            if !instr && k + start >= n && matches!(ch, ',' | ')' | '}' | ']') && !out.is_empty() {
+                break;
+            }
+            if ch == '"' && prev != '\\' {
+                instr = !instr;
+            }
+            out.push(ch);
+            if !instr && k + start >= n && matches!(ch, '(' | '{' | '[') {
+                break;
+            }
+            if out.len() > 60 {
+                break;
+            }
+            prev = ch;
+        }
+        if out.is_empty() {
+            "<end>".to_string()
+        } else {
+            out.trim().to_string()
+        }
+    };
+    let mut path: Vec<String> = Vec::new();
+    for (name, field) in &stack {
+        if !matches!(name.as_str(), "" | "[" | "Spanned" | "Some") {
+            path.push(name.clone());
+        }
+        if !matches!(field.as_str(), "" | "node") {
+            path.push(field.clone());
+        }
+    }
+    // the innermost three elements name the node and field; more context would split one root cause into many keys
+    let keep = path.len().saturating_sub(3);
+    Some(Diff { path: path[keep..].join("."), left: snippet(a), right: snippet(b) })
+}
+
 #[cfg(test)]
 mod tests {
     use super::*;
+
+    #[test]
+    fn compact_diff() {
+        let a = "Param { is_mut: true, name: \"a\" }";
+        let b = "Param { is_mut: false, name: \"a\" }";
+        let d = first_diff_compact(a, b).unwrap();
+        assert_eq!(d.path, "Param.is_mut");
+        assert_eq!((d.left.as_str(), d.right.as_str()), ("true", "false"));
+    }
 
     #[test]
     fn strip() {
